@@ -20,6 +20,7 @@ import BacVerif.Lemmas.C03EncWF
 import BacVerif.Lemmas.C03Prim
 import BacVerif.Lemmas.C03WFEnv
 import BacVerif.Props.C02
+import BacVerif.Model.Typed
 namespace BacVerif.C03
 open BacVerif BacVerif.Schema BacVerif.Codec BacVerif.SchemaWF
 
@@ -62,5 +63,287 @@ theorem encode_tags_wf (env : Env) (I : Table) (hwf : WFEnv env I) (τ : Nat) (v
     (hc : conforms env τ v = true) (ts : List Tag) (he : encodeTy env τ v = .ok ts) :
     ∀ t ∈ ts, C02.WF t :=
   fun t ht => tagWFb_sound (enc_wf_all env I hwf (τ + 1) τ (Nat.lt_succ_self τ) v ts hc he t ht)
+
+/-! ## Part 2: typed values -/
+
+open BacVerif.Typed
+
+/-- a leaf of the schema's primitive kind `a`: representable (C01 `Valid`), its data
+    fits a tag header (C01 `Fits`), and it is a value OF THAT KIND -/
+def leafT (a : Nat) (pv : PrimVal) : Bool :=
+  decide (C01.Valid pv) && decide (C01.Fits pv) && ((tyOf pv).appTag == a)
+
+abbrev TConf := Nat → TVal → Bool
+
+def tconformsRef (env : Env) (tconf : TConf) (r : Ref) (tv : TVal) : Bool :=
+  match kindOf env r, tv with
+  | .prim a, .prim pv => leafT a pv
+  | .anyAtomic, .atom pv => leafT (tyOf pv).appTag pv
+  | .seqOf j, tv | .listOf j, tv | .struct j, tv => tconf j tv
+  | _, _ => false
+
+def tconformsFields (env : Env) (tconf : TConf) : List Field → List (Option TVal) → Bool
+  | [], [] => true
+  | f :: fs, none :: vs => f.opt && tconformsFields env tconf fs vs
+  | f :: fs, some v :: vs => tconformsRef env tconf f.ref v && tconformsFields env tconf fs vs
+  | _, _ => false
+
+def tconformsDef (env : Env) (tconf : TConf) : TyDef → TVal → Bool
+  | .seq fs, .seq vs => tconformsFields env tconf fs vs
+  | .choice alts, .choice i v =>
+    (match alts[i]? with | some a => tconformsRef env tconf a.ref v | none => false)
+  | .list _ elem fixed, .list vs =>
+    vs.all (tconformsRef env tconf elem) &&
+    (match fixed with | some n => vs.length == n | none => true)
+  | .any, .tags ts => balancedFrom 0 ts && ts.all tagWFb
+  | .nameValue dt, .seq [some (.prim name), value] =>
+    leafT 7 name &&
+    (match value with
+     | none => true
+     | some (.atom pv) => leafT (tyOf pv).appTag pv
+     | some (.seq fs) => tconf dt (.seq fs)
+     | some _ => false)
+  | _, _ => false
+
+def tconformsF (env : Env) : Nat → Nat → TVal → Bool
+  | 0, _, _ => false
+  | fuel + 1, τ, tv =>
+    match env[τ]? with
+    | none => false
+    | some d => tconformsDef env (tconformsF env fuel) d tv
+
+/-- `tv` is a structurally valid TYPED value of class `env[τ]`: structure as
+    `conforms`, every leaf a representable C01 value of the kind the schema names -/
+def tconforms (env : Env) (τ : Nat) (tv : TVal) : Bool := tconformsF env (τ + 1) τ tv
+
+theorem ofAppTag_appTag (pt : PrimTy) : PrimTy.ofAppTag pt.appTag = some pt := by
+  cases pt <;> rfl
+
+/-- one leaf: C01 `prim_roundtrip` / `encodePrim_shape` through `leaf_of_prim` -/
+theorem leafT_ok {a : Nat} {pv : PrimVal} (h : leafT a pv = true) :
+    ∃ t, encodePrim pv = .ok t ∧ t.num = a ∧ leafOK a t.lvt t.data = true ∧
+      typeLeaf a t.lvt t.data = .ok pv := by
+  unfold leafT at h
+  simp only [Bool.and_eq_true, decide_eq_true_eq, beq_iff_eq] at h
+  obtain ⟨⟨hv, hf⟩, ha⟩ := h
+  obtain ⟨t, he, _, hnum, hok, hdec⟩ := leaf_of_prim pv hv hf
+  subst ha
+  exact ⟨t, he, hnum, hok, by simp [typeLeaf, ofAppTag_appTag, hdec]⟩
+
+section
+variable (env : Env) (conf : Nat → Val → Bool) (tconf : TConf) (ty : Ty)
+
+/-- what the induction provides for a class index below the current one -/
+def TGood (j : Nat) : Prop :=
+  ∀ tv, tconf j tv = true → ∃ v, tv.erase = .ok v ∧ conf j v = true ∧ ty j v = .ok tv
+
+theorem tgood_ref (τ : Nat) (r : Ref)
+    (hsub : ∀ j, TGood conf tconf ty j)
+    (tv : TVal) (hc : tconformsRef env tconf r tv = true) :
+    ∃ v, tv.erase = .ok v ∧ conformsRef env conf r v = true ∧ typeRef env ty r v = .ok tv := by
+  unfold tconformsRef at hc
+  cases hk : kindOf env r with
+  | prim a =>
+    rw [hk] at hc
+    cases tv with
+    | prim pv =>
+      obtain ⟨t, he, _, hok, hty⟩ := leafT_ok hc
+      exact ⟨.prim t.lvt t.data, by simp [TVal.erase, he], by simp [conformsRef, hk, hok],
+        by simp [typeRef, hk, hty]⟩
+    | _ => simp at hc
+  | anyAtomic =>
+    rw [hk] at hc
+    cases tv with
+    | atom pv =>
+      obtain ⟨t, he, hnum, hok, hty⟩ := leafT_ok hc
+      have h12 := leafOK_le hok
+      refine ⟨.atom t.num t.lvt t.data, by simp [TVal.erase, he], ?_, ?_⟩
+      · simp [conformsRef, hk, hnum, hok, h12]
+      · simp [typeRef, hk, hnum, hty]
+    | _ => simp at hc
+  | seqOf j =>
+    rw [hk] at hc
+    obtain ⟨v, h1, h2, h3⟩ := hsub j tv (by simpa using hc)
+    exact ⟨v, h1, by simp [conformsRef, hk, h2], by simp [typeRef, hk, h3]⟩
+  | listOf j =>
+    rw [hk] at hc
+    obtain ⟨v, h1, h2, h3⟩ := hsub j tv (by simpa using hc)
+    exact ⟨v, h1, by simp [conformsRef, hk, h2], by simp [typeRef, hk, h3]⟩
+  | struct j =>
+    rw [hk] at hc
+    obtain ⟨v, h1, h2, h3⟩ := hsub j tv (by simpa using hc)
+    exact ⟨v, h1, by simp [conformsRef, hk, h2], by simp [typeRef, hk, h3]⟩
+  | bad => rw [hk] at hc; simp at hc
+
+theorem tgood_fields (hsub : ∀ j, TGood conf tconf ty j) :
+    ∀ (fs : List Field) (tvs : List (Option TVal)), tconformsFields env tconf fs tvs = true →
+      ∃ vs, TVal.eraseOpts tvs = .ok vs ∧ conformsFields env conf fs vs = true ∧
+        typeFields env ty fs vs = .ok tvs := by
+  intro fs
+  induction fs with
+  | nil =>
+    intro tvs hc
+    cases tvs with
+    | nil => exact ⟨[], by simp [TVal.eraseOpts], by simp [conformsFields], by simp [typeFields]⟩
+    | cons _ _ => simp [tconformsFields] at hc
+  | cons f fs ih =>
+    intro tvs hc
+    cases tvs with
+    | nil => simp [tconformsFields] at hc
+    | cons otv tvs =>
+      cases otv with
+      | none =>
+        simp only [tconformsFields, Bool.and_eq_true] at hc
+        obtain ⟨vs, h1, h2, h3⟩ := ih tvs hc.2
+        exact ⟨none :: vs, by simp [TVal.eraseOpts, h1], by simp [conformsFields, hc.1, h2],
+          by simp [typeFields, h3]⟩
+      | some tv =>
+        simp only [tconformsFields, Bool.and_eq_true] at hc
+        obtain ⟨v, g1, g2, g3⟩ := tgood_ref env conf tconf ty 0 f.ref hsub tv hc.1
+        obtain ⟨vs, h1, h2, h3⟩ := ih tvs hc.2
+        exact ⟨some v :: vs, by simp [TVal.eraseOpts, g1, h1], by simp [conformsFields, g2, h2],
+          by simp [typeFields, g3, h3]⟩
+
+theorem tgood_elems (elem : Ref) (hsub : ∀ j, TGood conf tconf ty j) :
+    ∀ (tvs : List TVal), tvs.all (tconformsRef env tconf elem) = true →
+      ∃ vs, TVal.eraseList tvs = .ok vs ∧ vs.all (conformsRef env conf elem) = true ∧
+        typeElems env ty elem vs = .ok tvs ∧ vs.length = tvs.length := by
+  intro tvs
+  induction tvs with
+  | nil => intro _; exact ⟨[], by simp [TVal.eraseList], by simp, by simp [typeElems], rfl⟩
+  | cons tv tvs ih =>
+    intro hc
+    simp only [List.all_cons, Bool.and_eq_true] at hc
+    obtain ⟨v, g1, g2, g3⟩ := tgood_ref env conf tconf ty 0 elem hsub tv hc.1
+    obtain ⟨vs, h1, h2, h3, h4⟩ := ih hc.2
+    exact ⟨v :: vs, by simp [TVal.eraseList, g1, h1], by simp [g2, h2], by simp [typeElems, g3, h3],
+      by simp [h4]⟩
+
+/-- ONE CLASS -/
+theorem tgood_def (d : TyDef) (hsub : ∀ j, TGood conf tconf ty j)
+    (tv : TVal) (hc : tconformsDef env tconf d tv = true) :
+    ∃ v, tv.erase = .ok v ∧ conformsDef env conf d v = true ∧ typeDef env ty d v = .ok tv := by
+  cases d with
+  | seq fs =>
+    cases tv with
+    | seq tvs =>
+      simp only [tconformsDef] at hc
+      obtain ⟨vs, h1, h2, h3⟩ := tgood_fields env conf tconf ty hsub fs tvs hc
+      exact ⟨.seq vs, by simp [TVal.erase, h1], by simp [conformsDef, h2], by simp [typeDef, h3]⟩
+    | _ => simp [tconformsDef] at hc
+  | choice alts =>
+    cases tv with
+    | choice i x =>
+      simp only [tconformsDef] at hc
+      cases hi : alts[i]? with
+      | none => simp [hi] at hc
+      | some a =>
+        rw [hi] at hc
+        obtain ⟨v, g1, g2, g3⟩ := tgood_ref env conf tconf ty 0 a.ref hsub x hc
+        exact ⟨.choice i v, by simp [TVal.erase, g1], by simp [conformsDef, hi, g2],
+          by simp [typeDef, hi, g3]⟩
+    | _ => simp [tconformsDef] at hc
+  | list k elem fixed =>
+    cases tv with
+    | list tvs =>
+      simp only [tconformsDef, Bool.and_eq_true] at hc
+      obtain ⟨vs, h1, h2, h3, h4⟩ := tgood_elems env conf tconf ty elem hsub tvs hc.1
+      refine ⟨.list vs, by simp [TVal.erase, h1], ?_, by simp [typeDef, h3]⟩
+      simp only [conformsDef, Bool.and_eq_true, h2, true_and]
+      rw [h4]; exact hc.2
+    | _ => simp [tconformsDef] at hc
+  | any =>
+    cases tv with
+    | tags ts =>
+      simp only [tconformsDef] at hc
+      exact ⟨.tags ts, by simp [TVal.erase], by simpa [conformsDef] using hc, by simp [typeDef]⟩
+    | _ => simp [tconformsDef] at hc
+  | nameValue dt =>
+    -- the typed value has the shape `.seq [some (.prim name), value]`
+    have hshape : ∃ name value, tv = .seq [some (.prim name), value] := by
+      cases tv with
+      | seq fs =>
+        cases fs with
+        | nil => simp [tconformsDef] at hc
+        | cons x fs1 =>
+          cases x with
+          | none => simp [tconformsDef] at hc
+          | some nm =>
+            cases nm with
+            | prim name =>
+              cases fs1 with
+              | nil => simp [tconformsDef] at hc
+              | cons value fs2 =>
+                cases fs2 with
+                | cons _ _ => simp [tconformsDef] at hc
+                | nil => exact ⟨name, value, rfl⟩
+            | _ => simp [tconformsDef] at hc
+      | _ => simp [tconformsDef] at hc
+    obtain ⟨name, value, rfl⟩ := hshape
+    simp only [tconformsDef, Bool.and_eq_true] at hc
+    obtain ⟨t, he, _, hok, hty⟩ := leafT_ok hc.1
+    cases value with
+    | none =>
+      exact ⟨.seq [some (.prim t.lvt t.data), none], by simp [TVal.erase, TVal.eraseOpts, he],
+        by simp [conformsDef, hok], by simp [typeDef, hty]⟩
+    | some x =>
+      cases x with
+      | atom pv =>
+        obtain ⟨t2, he2, hnum2, hok2, hty2⟩ := leafT_ok hc.2
+        have h12 := leafOK_le hok2
+        refine ⟨.seq [some (.prim t.lvt t.data), some (.atom t2.num t2.lvt t2.data)],
+          by simp [TVal.erase, TVal.eraseOpts, he, he2], ?_, ?_⟩
+        · simp [conformsDef, hok, hnum2, hok2, h12]
+        · simp [typeDef, hty, hnum2, hty2]
+      | seq fs =>
+        have hc2 := hc.2
+        simp only at hc2
+        obtain ⟨v, g1, g2, g3⟩ := hsub dt (.seq fs) hc2
+        -- the erasure of a `.seq` is a `.seq`
+        have hvs : ∃ vs, v = .seq vs := by
+          simp only [TVal.erase] at g1
+          split at g1
+          · simp only [Except.ok.injEq] at g1; exact ⟨_, g1.symm⟩
+          · simp at g1
+        obtain ⟨vs, rfl⟩ := hvs
+        refine ⟨.seq [some (.prim t.lvt t.data), some (.seq vs)], ?_, ?_, ?_⟩
+        · simp only [TVal.erase] at g1 ⊢
+          simp only [TVal.eraseOpts, TVal.erase, he]
+          split at g1
+          · rename_i vs' hvs'
+            simp only [Except.ok.injEq, Val.seq.injEq] at g1
+            subst g1
+            simp [hvs']
+          · simp at g1
+        · simp [conformsDef, hok, g2]
+        · simp [typeDef, hty, g3]
+      | prim _ => simp at hc
+      | tags _ => simp at hc
+      | choice _ _ => simp at hc
+      | list _ => simp at hc
+end
+
+/-- the induction over the reference depth -/
+theorem tgood_all (env : Env) :
+    ∀ fuel τ, TGood (conformsF env fuel) (tconformsF env fuel) (typeValF env fuel) τ := by
+  intro fuel
+  induction fuel with
+  | zero => intro τ tv hc; simp [tconformsF] at hc
+  | succ fuel ih =>
+    intro τ tv hc
+    simp only [tconformsF] at hc
+    cases henv : env[τ]? with
+    | none => simp [henv] at hc
+    | some d =>
+      rw [henv] at hc
+      obtain ⟨v, h1, h2, h3⟩ := tgood_def env (conformsF env fuel) (tconformsF env fuel)
+        (typeValF env fuel) d ih tv hc
+      exact ⟨v, h1, by simp [conformsF, henv, h2], by simp [typeValF, henv, h3]⟩
+
+/-- **typed_erase**: a conforming typed value erases to a structurally valid
+    value tree that types back to it (C01 `prim_roundtrip` at every leaf). -/
+theorem typed_erase (env : Env) (τ : Nat) (tv : TVal) (hc : tconforms env τ tv = true) :
+    ∃ v, tv.erase = .ok v ∧ conforms env τ v = true ∧ typeVal env τ v = .ok tv :=
+  tgood_all env (τ + 1) τ tv hc
 
 end BacVerif.C03
